@@ -246,8 +246,8 @@ theorem nulPos_lt (l : List Nat) (p : Nat) (h : nulPos l = some p) : p < l.lengt
         have := ih q hn
         simp; omega
 
-/-- a decoded local time type: offset in `i32` and not `i32::MIN`, designation legal -/
-def LttOkZ (t : Ltt) : Prop := I32r t.off ∧ t.off ≠ I32_MIN ∧ ∀ n, t.name = some n → NameOk n
+/-- a decoded local time type: offset in `i32` and strictly within 24 h, designation legal -/
+def LttOkZ (t : Ltt) : Prop := I32r t.off ∧ (-86400 < t.off ∧ t.off < 86400) ∧ ∀ n, t.name = some n → NameOk n
 
 theorem idx_ok (l : List Nat) (i : Nat) (h : i < l.length) : ∃ b, idx l i = .ok b := by
   unfold idx
